@@ -139,6 +139,10 @@ class Parser:
             return t  # Wrapping<u64> is u64 with wrapping operators = our default
         if v == 'Self':
             return 'Self'
+        if v == 'Option' and self.accept('<'):
+            t = self.parse_type()
+            self.expect('>')
+            return ('option', t)
         return v
 
     # function ----------------------------------------------------------------------------------
@@ -314,6 +318,25 @@ class Parser:
         self.accept('mut')
         return ('pid', self.next()[1])
 
+    def parse_match_pat(self):
+        """patterns of `match` arms: `_`, a binding, a literal (`0`, `true`), tuples of these"""
+        if self.accept('('):
+            ps = []
+            while not self.accept(')'):
+                ps.append(self.parse_match_pat())
+                self.accept(',')
+            return ('mtuple', ps)
+        kind, v = self.next()
+        if v == '_':
+            return ('mwild',)
+        if v in ('true', 'false'):
+            return ('mbool', v == 'true')
+        if kind == 'num':
+            return ('mlit', int(v.replace('_', ''), 0))
+        if kind == 'id':
+            return ('mbind', v)
+        raise TranslateError('unsupported match pattern %r' % (v,))
+
     # expressions (precedence climbing) ---------------------------------------------------------
     PREC = [['||'], ['&&'], ['==', '!=', '<', '>', '<=', '>='], ['|'], ['^'], ['&'], ['<<', '>>'], ['+', '-'],
             ['*', '/', '%']]
@@ -341,6 +364,8 @@ class Parser:
             return ('un', v, self.parse_unary())
         if v in ('*', '&'):
             self.next()
+            if v == '&' and self.accept('mut'):
+                return ('refmut', self.parse_unary())    # kept: a call may update the referent
             self.accept('mut')
             return self.parse_unary()
         return self.parse_postfix()
@@ -411,6 +436,17 @@ class Parser:
                 else:
                     b = self.parse_block()
             return ('if', c, a, b)
+        if v == 'match':
+            scrut = self.parse_expr()
+            self.expect('{')
+            arms = []
+            while not self.accept('}'):
+                pat = self.parse_match_pat()
+                self.expect('=>')
+                body = self.parse_expr()
+                self.accept(',')
+                arms.append((pat, body))
+            return ('match', scrut, arms)
         if v == 'unsafe':
             return self.parse_block()
         if v == '{':
@@ -483,6 +519,8 @@ class Emitter:
                     return n, 'usize'
                 if n in self.consts:
                     return self.consts[n]
+                if n == 'None':
+                    return 'none', (exp if isinstance(exp, tuple) and exp[0] == 'option' else ('option', None))
                 raise TranslateError('unknown variable %s' % n)
             if len(p) == 2 and getattr(self, 'uint_mode', False) == 'value' and p[0] == 'Self':
                 vm = {'LIMBS': ('LIMBS', 'usize'), 'BITS': ('BITS', 'usize'), 'ZERO': ('0', 'uint'),
@@ -493,6 +531,8 @@ class Emitter:
             if len(p) == 2 and getattr(self, 'uint_mode', False) and p[0] == 'Self':
                 um = {'LIMBS': ('LIMBS', 'usize'), 'BITS': ('BITS', 'usize'), 'MASK': ('(mask BITS)', 'u64'),
                       'ZERO': ('(List.replicate LIMBS 0)', 'uint'),
+                      # `MAX = from_limbs_unmasked([u64::MAX; LIMBS]).masked()` (src/lib.rs)
+                      'MAX': ('(uint_masked BITS LIMBS (List.replicate LIMBS (2 ^ 64 - 1)))', 'uint'),
                       'SHOULD_MASK': ('(decide (BITS > 0) && ((mask BITS) != (2 ^ 64 - 1)))', 'bool')}
                 if p[1] in um:
                     return um[p[1]]
@@ -557,6 +597,10 @@ class Emitter:
             if t[0] != 'array':
                 raise TranslateError('index into non-array')
             return '(%s.getD %s 0)' % (s, i), t[1]
+        if k == 'refmut':
+            return self.expr(e[1], env, exp)
+        if k == 'match':
+            return self.match_expr(e, env, exp)
         if k == 'if':
             return self.if_expr(e, env, exp)
         if k == 'block':
@@ -574,6 +618,57 @@ class Emitter:
             return '[' + ', '.join(p[0] for p in parts) + ']', ('array', parts[0][1] if parts else 'u64', len(parts))
         raise TranslateError('unsupported expression %r' % (e[0],))
 
+    def match_expr(self, e, env, exp):
+        """`match scrutinee { pat => expr, … }` over tuples of bools / integers / bindings: the scrutinee is bound to a
+        temporary, each arm becomes `if <its literal tests> then <body with its bindings>`, in order; the last arm is the
+        final `else` (Rust has checked that the arms are exhaustive)."""
+        _, scrut, arms = e
+        ss, ts = self.expr(scrut, env, None)
+        self.tmp = getattr(self, 'tmp', 0) + 1
+        t = 'sel%d' % self.tmp
+
+        def walk(pat, term, ty, conds, binds):
+            if pat[0] == 'mwild':
+                return
+            if pat[0] == 'mbind':
+                binds.append((pat[1], term, ty))
+                return
+            if pat[0] == 'mbool':
+                conds.append(term if pat[1] else '(!%s)' % term)
+                return
+            if pat[0] == 'mlit':
+                conds.append('(%s == %d)' % (term, pat[1]))
+                return
+            if pat[0] == 'mtuple':
+                if not (isinstance(ty, tuple) and ty[0] == 'tuple' and len(ty[1]) == len(pat[1])):
+                    raise TranslateError('tuple pattern against %r' % (ty,))
+                n = len(pat[1])
+                for i, q in enumerate(pat[1]):
+                    walk(q, term + '.2' * i + ('.1' if i < n - 1 else ''), ty[1][i], conds, binds)
+                return
+            raise TranslateError('unsupported pattern')
+        out = None
+        rt = None
+        for k, (pat, body) in reversed(list(enumerate(arms))):
+            conds, binds = [], []
+            walk(pat, t, ts, conds, binds)
+            env2 = dict(env)
+            lets = ''
+            for n, term, ty in binds:
+                env2[n] = ty
+                lets += 'let %s := %s\n  ' % (lean_ident(n), term)
+            sb, tb = self.expr(body, env2, exp or rt)
+            if tb is not None and not (isinstance(tb, tuple) and tb[0] == 'option' and tb[1] is None):
+                rt = tb
+            arm = '(%s%s)' % (lets, sb)
+            if out is None:
+                out = arm                      # last arm: the final else
+            else:
+                if not conds:
+                    raise TranslateError('irrefutable match arm before the last one')
+                out = '(if (%s) then %s\n  else %s)' % (' && '.join(conds), arm, out)
+        return '(let %s := %s\n  %s)' % (t, ss, out), rt
+
     def binop(self, e, env, exp):
         _, op, a, b = e
         if op in ('&&', '||'):
@@ -583,9 +678,19 @@ class Emitter:
         if op in ('<<', '>>'):
             sa, ta = self.expr(a, env, exp)
             sb, _ = self.expr(b, env, 'u32')
+            if ta == 'uint' and getattr(self, 'uint_mode', False) != 'value':
+                # `Shl<usize>` / `Shr<usize> for Uint` are `wrapping_shl` / `wrapping_shr` (impl_shift! in src/bits.rs)
+                key = 'Uint::wrapping_shl' if op == '<<' else 'Uint::wrapping_shr'
+                if key not in self.fns:
+                    raise TranslateError('shift of a Uint before %s is translated' % key)
+                sig = self.fns[key]
+                sb, _ = self.expr(b, env, 'usize')
+                ss = ['BITS', 'LIMBS', sa, sb]
+                if len(sig) > 3 and sig[3]:
+                    self.uses_fuel = True
+                    ss = ['fuel'] + ss
+                return '(%s %s)' % (sig[0], ' '.join(ss)), 'uint'
             if ta == 'uint':
-                if getattr(self, 'uint_mode', False) != 'value':
-                    raise TranslateError('shift of a Uint (limb mode)')
                 if op == '<<':
                     return '((%s * 2 ^ %s) %% 2 ^ BITS)' % (sa, sb), ta
                 return '(%s / 2 ^ %s)' % (sa, sb), ta
@@ -599,6 +704,14 @@ class Emitter:
         else:
             sa, ta = self.expr(a, env, exp)
             sb, tb = self.expr(b, env, ta)
+        if ta == 'uint' and tb == 'uint' and getattr(self, 'uint_mode', False) != 'value' and op in ('<', '>', '<=', '>='):
+            # `Ord for Uint` is the numeric order of the values (C04: `cmp` orders by `val`)
+            lop = {'<': '<', '>': '>', '<=': '≤', '>=': '≥'}[op]
+            return '(decide (Ruint.val %s %s Ruint.val %s))' % (sa, lop, sb), 'bool'
+        if ta == 'uint' and tb == 'uint' and getattr(self, 'uint_mode', False) != 'value' and op in ('|', '&', '^'):
+            # `BitOr` / `BitAnd` / `BitXor for Uint`: limb-wise (src/bits.rs impl_bit_op!)
+            lop = {'|': '|||', '&': '&&&', '^': '^^^'}[op]
+            return '(List.zipWith (· %s ·) %s %s)' % (lop, sa, sb), 'uint'
         if 'uint' in (ta, tb) and getattr(self, 'uint_mode', False) != 'value' and op not in ('==', '!='):
             raise TranslateError('operator %s on Uint operands (limb mode)' % op)
         if ta == 'uint' and getattr(self, 'uint_mode', False) == 'value' and op not in ('==', '!=', '<', '>', '<=', '>='):
@@ -646,6 +759,10 @@ class Emitter:
         if len(path) == 1:
             if name in ('unlikely', 'likely', 'Wrapping'):
                 return self.expr(args[0], env, exp)
+            if name == 'Some' and len(args) == 1:
+                inner = exp[1] if isinstance(exp, tuple) and exp[0] == 'option' else None
+                sa, ta = self.expr(args[0], env, inner)
+                return '(some %s)' % sa, ('option', ta)
             sty = self.ty(name)
             if isinstance(sty, tuple) and sty[0] == 'tuple' and (name == 'Self' or name in getattr(self, 'structs', {})):
                 parts = [self.expr(a, env, t)[0] for a, t in zip(args, sty[1])]
@@ -657,6 +774,10 @@ class Emitter:
             if name in self.fns:
                 return self.call_fn(self.fns[name], args, env)
             raise TranslateError('call to untranslated function %s' % name)
+        if name in getattr(self, 'externs', {}) and path[0] in ('algorithms', 'crate', 'super'):
+            tmpl, rt = self.externs[name][0], self.externs[name][1]
+            ss = [self.expr(a, env, None)[0] for a in args]
+            return '(' + tmpl % tuple(ss) + ')', rt
         head = self.ty(path[0])
         if name == 'from' and head in WIDTH:
             s, t = self.expr(args[0], env)
@@ -734,6 +855,9 @@ class Emitter:
                 sb, _ = self.expr(args[0], env, tr)
                 f = {'overflowing_add': 'oadd', 'overflowing_sub': 'osub', 'overflowing_mul': 'omul'}[name]
                 return '(Rs.%s %d %s %s)' % (f, w, sr, sb), ('tuple', [tr, 'bool'])
+            if name == 'saturating_sub':
+                sb, _ = self.expr(args[0], env, tr)
+                return '(%s - %s)' % (sr, sb), tr          # ℕ subtraction truncates at 0
             if name == 'wrapping_neg':
                 return '(Rs.wneg %d %s)' % (w, sr), tr
             if name == 'leading_zeros':
@@ -747,6 +871,8 @@ class Emitter:
                 sig = self.fns[key]
                 ss = [sr] + [self.expr(a, env, self.ty(pt))[0] for a, pt in zip(args, sig[1][1:])]
                 return '(%s %s)' % (sig[0], ' '.join(ss)), sig[2]
+        if tr == 'uint' and name in ('as_limbs', 'into_limbs') and not args and getattr(self, 'uint_mode', False) is True:
+            return sr, 'uint'
         if (tr in ('slice', 'mutslice', 'uint') or (isinstance(tr, tuple) and tr[0] == 'array')) and name == 'len':
             return '(%s).length' % sr, 'usize'
         if tr == 'uint' and ('Uint::' + name) in self.fns:
@@ -783,6 +909,19 @@ class Emitter:
                 for n in self.target_roots(s[1]):
                     if n and n not in local and n not in out:
                         out.append(n)
+            if s[0] == 'expr' and s[1][0] == 'mcall' and s[1][1][0] == 'path' and len(s[1][1][1]) == 1:
+                # `x.method(…);` with `&mut self` (e.g. `result.apply_mask();`) updates x
+                sig = self.fns.get('Uint::' + s[1][2])
+                n = s[1][1][1][0]
+                if sig and len(sig) > 5 and sig[5] and n not in local and n not in out:
+                    out.append(n)
+            if s[0] in ('let', 'assign', 'expr'):
+                mc = self.mut_call(s)
+                if mc:
+                    for tg in mc[1]:
+                        for n in self.target_roots(tg):
+                            if n and n not in local and n not in out:
+                                out.append(n)
             elif s[0] == 'while':
                 for n in self.assigned(s[2][1], declared):
                     if n not in local and n not in out:
@@ -835,6 +974,9 @@ class Emitter:
                 proj = '.2' * i + ('.1' if i < n - 1 else '')
                 out += self.assign_lines(x, t + proj, ty[1][i] if isinstance(ty, tuple) and ty[0] == 'tuple' else None, env)
             return out
+        if target[0] == 'fieldname' and target[2] == 'limbs' and target[1][0] == 'path' and len(target[1][1]) == 1 \
+                and env.get(target[1][1][0]) == 'uint':
+            return 'let %s := %s\n  ' % (lean_ident(target[1][1][0]), term)
         if target[0] == 'index':
             base = target[1]
             if base[0] == 'fieldname' and base[2] == 'limbs':
@@ -927,12 +1069,34 @@ class Emitter:
             return any(self.fn_return_in(x) for x in node)
         return False
 
+    def mut_call(self, s):
+        """a statement `let x = f(&mut a, …);` / `x = f(&mut a, …);` / `f(&mut a, …);` whose callee is an extern declared
+        with updated arguments: -> (call node, [assignment targets of the `&mut` arguments], returns unit?)"""
+        k = s[0]
+        e = s[3] if k == 'let' else s[2] if k == 'assign' else s[1] if k == 'expr' else None
+        if not (isinstance(e, tuple) and e and e[0] == 'call'):
+            return None
+        name = e[1][-1]
+        ext = getattr(self, 'externs', {}).get(name)
+        if not ext or len(ext) < 3:
+            return None
+        targets = []
+        for i in ext[2]:
+            a = e[2][i]
+            if a[0] != 'refmut':
+                raise TranslateError('argument %d of %s is expected to be `&mut`' % (i, name))
+            targets.append(a[1])
+        unit = len(ext) > 3 and ext[3]
+        if unit and k != 'expr':
+            raise TranslateError('%s returns nothing' % name)
+        return e, targets, unit
+
     def foreach_pairs(self, pat, it):
         """`for <pat> in <iterator>` over slices/arrays, `zip`s of them, with `.iter()`, `.iter_mut()`, `.rev()`:
         -> ([(pattern variable, array variable)], reversed?)"""
         rev = False
-        while it[0] == 'mcall' and it[2] in ('iter', 'iter_mut', 'rev', 'into_iter') and not it[3]:
-            if it[2] == 'rev':
+        while it[0] == 'refmut' or (it[0] == 'mcall' and it[2] in ('iter', 'iter_mut', 'rev', 'into_iter') and not it[3]):
+            if it[0] == 'mcall' and it[2] == 'rev':
                 rev = not rev
             it = it[1]
         if isinstance(pat, str):
@@ -1075,6 +1239,28 @@ class Emitter:
                 term, tt = self.expr(s[3], env, t)
                 self.consts[s[1]] = (term, t)
             return self.stmts(rest, env, exp, result)
+        mc = self.mut_call(s)
+        if mc is not None:
+            call, targets, unit = mc
+            sc, tc = self.expr(call, env, None)
+            self.tmp = getattr(self, 'tmp', 0) + 1
+            t = 'sel%d' % self.tmp
+            lines = 'let %s := %s\n  ' % (t, sc)
+            n = len(targets) + (0 if unit else 1)
+            for i, tg in enumerate(targets):
+                proj = ('.2' * i + ('.1' if i < n - 1 else '')) if n > 1 else ''
+                lines += self.assign_lines(tg, t + proj, None, env)
+            if not unit:
+                i = len(targets)
+                proj = '.2' * i
+                rt = tc[1][-1] if isinstance(tc, tuple) and tc[0] == 'tuple' else None
+                if k == 'let':
+                    self.bind(s[1], rt, env)
+                    lines += 'let %s := %s%s\n  ' % (self.pat(s[1]), t, proj)
+                elif k == 'assign':
+                    lines += self.assign_lines(s[1], t + proj, rt, env)
+            body, tb = self.stmts(rest, env, exp, result)
+            return lines + body, tb
         if k == 'let':
             se, te = self.expr(s[3], env, self.ty(s[2]) if s[2] else None)
             if s[2]:
@@ -1131,6 +1317,14 @@ class Emitter:
                 return '(if %s then (\n  %s)\n  else (\n  %s))' % (sc, sa, sb), self.cur_rt
             av = self.assigned([s], set())
             if not av:
+                # nothing assigned: only acceptable when nothing is left in the branches (hooks and debug assertions are
+                # removed by the parser); anything else would be an effect the translation loses
+                def empty(blk):
+                    return blk is None or all(x[0] in ('expr', 'expr_nosemi', 'tail') and x[1][0] in ('if', 'block')
+                                              and all(empty(y) for y in ((x[1][2], x[1][3]) if x[1][0] == 'if' else (x[1],)))
+                                              for x in blk[1])
+                if not (empty(a) and empty(b)):
+                    raise TranslateError('if-statement whose effect is not understood')
                 return self.stmts(rest, env, exp, result)
             sa, _ = self.stmts(a[1], dict(env), None, av)
             sb, _ = self.stmts(b[1], dict(env), None, av) if b else self.vars_tuple(av, env)
@@ -1148,7 +1342,9 @@ class Emitter:
             return 'let %s := if %s then (\n  %s)\n  else (\n  %s)\n  %s%s' % (t, sc, sa, sb, projs, body), tb
         if k in ('tail', 'expr_nosemi'):
             if rest:
-                return self.stmts(rest, env, exp, result)
+                if s[1][0] == 'block' and not s[1][1]:
+                    return self.stmts(rest, env, exp, result)
+                raise TranslateError('expression statement with untranslated effect: %r' % (s[1][:2],))
             if result == 'fn':
                 se, te = self.expr(s[1], env, self.inner_rt)
                 return self.wrap_ret(se, env), self.cur_rt
@@ -1232,11 +1428,15 @@ class Emitter:
         t = self.ty(t)
         if isinstance(t, tuple) and t[0] == 'tuple':
             return ('tuple', [self.ty_deep(x) for x in t[1]])
+        if isinstance(t, tuple) and t[0] == 'option':
+            return ('option', self.ty_deep(t[1]))
         return t
 
     def lean_ty(self, t):
         if t == 'bool':
             return 'Bool'
+        if isinstance(t, tuple) and t[0] == 'option':
+            return 'Option (%s)' % self.lean_ty(t[1])
         if t == 'uint' and getattr(self, 'uint_mode', False) == 'value':
             return 'Nat'
         if t in ('uint', 'slice', 'mutslice') or (isinstance(t, tuple) and t[0] == 'array'):
@@ -1364,15 +1564,31 @@ def lehmer_items(repo):
     return out
 
 
+# slice algorithms that are not translated (slice re-borrowing): the C15 model function stands for the callee.
+# name -> (template, type, indices of the `&mut` arguments it updates[, returns unit])
+UINT_EXTERNS = {
+    'addmul': ('Ruint.Limb.addmul Ruint.W %s %s %s', ('tuple', ['uint', 'bool']), [0]),
+    'addmul_n': ('(Ruint.Limb.addmulN Ruint.W %s %s %s).getD []', 'uint', [0], True),
+}
+
+
 def uint_items(repo):
     out = []
     for f, fn in (('lib.rs', 'masked'), ('add.rs', 'overflowing_add'), ('add.rs', 'overflowing_sub'),
                   ('lib.rs', 'apply_mask'), ('bits.rs', 'overflowing_shl'), ('bits.rs', 'overflowing_shr'),
                   ('bits.rs', 'bit'), ('bits.rs', 'set_bit'), ('bits.rs', 'not'), ('bits.rs', 'leading_zeros'),
                   ('bits.rs', 'leading_ones'), ('bits.rs', 'count_ones'), ('bits.rs', 'count_zeros'),
-                  ('bits.rs', 'bit_len'), ('bits.rs', 'byte_len')):
+                  ('bits.rs', 'bit_len'), ('bits.rs', 'byte_len'),
+                  ('add.rs', 'overflowing_neg'), ('add.rs', 'checked_add'), ('add.rs', 'checked_sub'), ('add.rs', 'checked_neg'),
+                  ('add.rs', 'saturating_add'), ('add.rs', 'saturating_sub'), ('add.rs', 'wrapping_add'),
+                  ('add.rs', 'wrapping_sub'), ('add.rs', 'wrapping_neg'), ('add.rs', 'abs_diff'),
+                  ('bits.rs', 'checked_shl'), ('bits.rs', 'saturating_shl'), ('bits.rs', 'wrapping_shl'),
+                  ('bits.rs', 'checked_shr'), ('bits.rs', 'wrapping_shr'), ('bits.rs', 'arithmetic_shr'),
+                  ('bits.rs', 'rotate_left'), ('bits.rs', 'rotate_right'),
+                  ('mul.rs', 'overflowing_mul'), ('mul.rs', 'wrapping_mul'), ('mul.rs', 'checked_mul'),
+                  ('mul.rs', 'saturating_mul')):
         out.append({'file': repo + '/src/' + f, 'fn': fn, 'lean': 'uint_' + fn, 'key': 'Uint::' + fn, 'self_ty': 'uint',
-                    'uint': True, 'group': 'uint'})
+                    'uint': True, 'group': 'uint', 'externs': UINT_EXTERNS})
     return out
 
 
@@ -1400,7 +1616,7 @@ def value_items(repo):
     """L2 ('value mode'): a Uint is its numeric value; callee methods are their value-level meanings (VALUE_METHODS) or the
     model function named in `externs`. Ties the control structure of the wrappers to the L2 models."""
     out = []
-    for fn in ('overflowing_pow', 'wrapping_pow'):
+    for fn in ('overflowing_pow', 'wrapping_pow', 'checked_pow', 'saturating_pow', 'pow'):
         out.append({'file': repo + '/src/pow.rs', 'fn': fn, 'lean': 'val_' + fn, 'key': 'UintV::' + fn, 'self_ty': 'uint',
                     'uint': 'value', 'group': 'value'})
     ext = {'mul_mod': ('Ruint.Modular.mulMod BITS %s %s %s', 'uint')}
@@ -1418,7 +1634,7 @@ def div_loop_items(repo):
 
 GROUPS = [('core', 'Words', ('Ruint.Gen.Prelude',)),
           ('kernels', 'WordsKernels', ('Ruint.Gen.Words',)),
-          ('uint', 'WordsUint', ('Ruint.Gen.Words',)),
+          ('uint', 'WordsUint', ('Ruint.Gen.Words', 'Ruint.Base', 'Ruint.Model.MulKernels')),
           ('lehmer', 'WordsLehmer', ('Ruint.Gen.Prelude',)),
           ('redc', 'WordsRedc', ('Ruint.Gen.Words',)),
           ('redcloops', 'WordsRedcLoops', ('Ruint.Gen.WordsRedc',)),
